@@ -38,7 +38,9 @@ def plan(tier: str):
              mc.GEO_OUTPUTS[:1], 14, 2),
             # the third program the driver knows (legacy HIP-RA), failing iterations, and a result file named by a relative settings line
             ('hip_ra', mc.HIPRA_BASE, mc.HIPRA_INPUTS, mc.HIPRA_OUTPUTS, 48, 3, 'relative'),
-            ('geophires', mc.GEO_BASE, [('Utilization Factor', 'uniform', 0.6, 1.25, None)], mc.GEO_OUTPUTS[:2], 16, 2, 'relative')]
+            ('geophires', mc.GEO_BASE, [('Utilization Factor', 'uniform', 0.6, 1.25, None)], mc.GEO_OUTPUTS[:2], 16, 2, 'relative'),
+            # a host with a coarse wall clock (whole seconds): the workers' streams must not depend on when they started
+            ('geophires', mc.GEO_BASE, mc.GEO_INPUTS[:3], mc.GEO_OUTPUTS[:1], 16, 8, 'coarse'), ('hip_ra_x', mc.HIP_BASE, mc.HIP_INPUTS, mc.HIP_OUTPUTS, 24, 16, 'coarse')]
     if tier == 'thorough':
         for w in (1, 2, 3, 4, 8, 16):
             runs.append(('geophires', mc.GEO_BASE, mc.GEO_INPUTS, mc.GEO_OUTPUTS, rng.choice([30, 60, 100]), w))
@@ -49,7 +51,7 @@ def plan(tier: str):
 
 def execute(runs, replay: bool):
     with cf.ThreadPoolExecutor(max_workers=3) as ex:
-        raw = list(ex.map(lambda a: mc.run_mc(*a[:6], relative=(len(a) > 6 and a[6] == 'relative')), runs))
+        raw = list(ex.map(lambda a: mc.run_mc(*a[:6], relative=(len(a) > 6 and a[6] == 'relative'), coarse_clock=(len(a) > 6 and a[6] == 'coarse')), runs))
     return [mc.build_trace(k + 1, r, replay) for k, r in enumerate(raw)], raw
 
 
